@@ -123,6 +123,12 @@ pub fn record(runs: usize, path: &str) {
     for n in (0..=1100usize).filter(|n| n % step == 0 || (n % 512 >= 424 && n % 512 <= 460) || n % 512 <= 8 || n % 512 >= 500) {
         if let Ok((p, w)) = guarded(|| witness_of_width(n, &mut Rng::new(n as u64))) { emit(&mut out, &p, &w); }
     }
+    // witnesses with sums of two different, equally wide types: the valid encoding and every single-bit change of its witness bytes
+    for (k, (p, w)) in crate::codec::equal_width_encodings().into_iter().enumerate() {
+        if runs < 2000 && k % 3 != (runs % 3) { continue; }
+        emit(&mut out, &p, &w);
+        for wb in crate::codec::single_bit_changes(&w) { emit(&mut out, &p, &wb); }
+    }
     // mutations and random strings
     for k in 0..runs {
         let (pb, wb): (Vec<u8>, Vec<u8>) = if k % 4 == 0 || pool.is_empty() {
